@@ -26,6 +26,7 @@ import Anko.Gen.Grammar
 import Anko.Props.GrammarTable
 import Anko.Props.Tie.Grammar
 import Anko.Props.Tie.LexFlow
+import Anko.Props.Tie.Inventory
 
 namespace Anko.C03
 open Anko Anko.Pratt Anko.PrecTable
@@ -326,5 +327,16 @@ this property then searches for a failing input - so a change that breaks this p
 property is not overlooked. -/
 /-- the scanner and the parser's entry points (lexer.go) -/
 theorem source_tie_LexFlow : Gen.LexFlow.leaves = Tables.lexFlow := Tie.lexFlow
+
+
+/-! ### Declaration inventory
+
+Nothing was added to the packages this property is anchored in: their top-level declarations (functions, methods, variables, constants, types with
+the fields of struct types), regenerated from /repo on this run, are the audited ones (Props/Tie/Inventory). A helper, a package-level table or a
+file added there - code no flow table can pin - breaks the tie by name and makes this property's check search for a failing input. -/
+/-- parser/ (lexer.go; parser.go is goyacc's output of the pinned grammar) -/
+theorem declarations_of_Parser_are_the_audited_ones : Tie.ofPkg "parser" Gen.Inventory.decls = Tie.ofPkg "parser" Tables.inventory := Tie.inventoryParser
+/-- ast/ -/
+theorem declarations_of_Ast_are_the_audited_ones : Tie.ofPkg "ast" Gen.Inventory.decls = Tie.ofPkg "ast" Tables.inventory := Tie.inventoryAst
 
 end Anko.C03
